@@ -178,3 +178,16 @@ Proof.
   unfold ckey, kvalid. destruct (ccov r r =? 0) eqn:E; cbn [snd]; [lia|].
   apply Z.eqb_neq in E. pose proof (Proofs.CorrP.ccov_self_nonneg r). lia.
 Qed.
+
+(* what key_lt decides: c1/sqrt(v1) < c2/sqrt(v2), i.e. (correlation 1 < correlation 2) once
+   the common positive factor (the query's own norm) is cancelled *)
+Lemma key_lt_meaning c1 v1 c2 v2 : 0 < v1 -> 0 < v2 ->
+  (key_lt (c1, v1) (c2, v2) = true <-> c1 * Z.abs c1 * v2 < c2 * Z.abs c2 * v1).
+Proof.
+  intros V1 V2. rewrite key_lt_spec. unfold klt.
+  destruct (Z.abs_spec c1) as [[P1 ->] | [P1 ->]], (Z.abs_spec c2) as [[P2 ->] | [P2 ->]].
+  - split; [intros [H | [H | H]]; nia | intros H; right; right; nia].
+  - split; [intros [H | [H | H]]; nia | intros H; exfalso; nia].
+  - split; [intros _; nia | intros _; left; lia].
+  - split; [intros [H | [H | H]]; nia | intros H; right; left; nia].
+Qed.
